@@ -258,6 +258,12 @@ C11_Clauses(cfg, D) ==
                       LET pp == D.pipes[i] IN
                       \A k \in 1..Len(pp.evs) :
                          (pp.evs[k].ev = "execout" /\ pp.pos[k] >= p) => \A k2 \in (k+1)..Len(pp.evs) : pp.evs[k2].ev # "execin",
+   \* ... and a retry wait (a long one: 20 ms and more) that the cancellation interrupts is not followed by another attempt
+   \* (timing-dependent when timer and cancellation coincide: counts only if it fails again on re-execution)
+   noRetryAfterCancelledWait |-> (p # 0 /\ ~D.ctx0 /\ cfg.w >= 20) => \A i \in 1..cfg.n :
+                      LET pp == D.pipes[i] IN
+                      \A k \in 2..Len(pp.evs) :
+                         (pp.evs[k].ev = "execin" /\ pp.evs[k-1].ev = "execout" /\ pp.pos[k-1] < p) => pp.pos[k] < p,
    \* the run terminates
    terminates   |-> HasRet(D) /\ ~D.stuck,
    \* context error, or post once with an error in the slot of every item that was not executed
@@ -280,6 +286,10 @@ C18B_Clauses(cfg, D) ==
    routed    |-> \A k \in 1..Len(D.h) : D.h[k].ev = "routed" => D.h[k].ok
   ]
 C18B_OK(cfg, h) == All(C18B_Clauses(cfg, Digest(cfg, h)))
+
+\* the batch part of C03: a batch node is a step of a flow like any other - the connection on the action it finishes with
+\* (the default action when its post answers the empty one) is followed, whatever the number of items
+C03B_Clauses(cfg, D) == [batchStepRouted |-> C18B_Clauses(cfg, D).routed]
 
 \* the batch part of C17: the item reaches the exec function unchanged; what the exec function returns - a value or an
 \* error Result - is what post finds in the item's slot, never wrapped a second time and never stripped
